@@ -372,6 +372,8 @@ func (s *Sim) Step(t *rapid.T) {
 	_ = weights
 	act := rapid.IntRange(0, 25).Draw(t, "act")
 	switch {
+	case act >= 24 && len(up) >= 4 && !s.byzHasTwoThirds() && rapid.IntRange(0, 2).Draw(t, "stale") == 0: // scripted stale-polka schedule (no Byzantine help needed)
+		s.StalePolka(t, up)
 	case act >= 24 && len(s.Byz) > 0 && !s.byzHasTwoThirds() && len(up) >= 2: // scripted lock-split attack on agreement
 		if rapid.Bool().Draw(t, "twolocks") {
 			s.TwoLocks(t, up)
@@ -1294,4 +1296,119 @@ func (s *Sim) TwoLocks(t *rapid.T, up []int) {
 	s.fireIfStep(at, "RoundStepPrecommitWait")
 	s.Stat["two-locks"]++
 	s.tracef("twolocks end: %s", s.Describe(at))
+}
+
+// relayVotes delivers to every node in `to` the votes of (typ, round) held by the nodes in `from`.
+func (s *Sim) relayVotes(to, from []int, typ kproto.SignedMsgType, round uint32) {
+	for _, i := range to {
+		for _, j := range from {
+			if i == j || s.down(i) || s.down(j) {
+				continue
+			}
+			for _, m := range Offers(s.Nodes[j], s.Nodes[i]) {
+				if vm, ok := m.(*consensus.VoteMessage); ok && vm.Vote.Type == typ && vm.Vote.Round == round {
+					s.send(i, j, m)
+				}
+			}
+		}
+		s.DrainOwn(i)
+	}
+}
+
+// StalePolka scripts a schedule that needs no Byzantine validator, only delays. Round r: nobody but the proposer sees
+// a proposal, so the others prevote nil; the victims V see 2/3 of the prevotes but not the one of Z (the straggler), so
+// there is no nil polka for them yet; everybody precommits nil. Round r+1: block B reaches everybody but Z; V and C see
+// its polka, lock and precommit; only C sees all precommits and commits B. V time out into round r+2. Now the straggler
+// prevote of round r arrives at V: a polka (for nil) of a round OLDER than their lock. Then V and Z run on without C.
+// With correct lock rules V keep prevoting B; if an old polka could release them, Z's next proposal would get decided
+// and the final heal would show two different blocks at this height.
+func (s *Sim) StalePolka(t *rapid.T, up []int) {
+	h := s.MinHeight(up)
+	var at []int
+	for _, i := range up {
+		if s.Nodes[i].CS.Height == h {
+			at = append(at, i)
+		}
+	}
+	if len(at) < 4 {
+		return
+	}
+	s.tracef("stalepolka begin h=%d nodes=%v", h, at)
+	s.fireIfStep(at, "RoundStepNewHeight", "RoundStepNewRound")
+	r := s.Nodes[at[0]].CS.Round
+	for _, i := range at {
+		cs := s.Nodes[i].CS
+		if cs.Round != r || cs.Height != h || cs.LockedBlock != nil {
+			s.tracef("stalepolka: nodes not aligned / already locked")
+			return
+		}
+	}
+	perm := rapid.Permutation(at).Draw(t, "sproles")
+	Z, C := perm[0], perm[1]
+	V := perm[2:]
+	notZ := append([]int{C}, V...)
+	// round r: no proposal travels; everybody times out of propose (the proposer prevotes its own block)
+	for _, i := range at {
+		s.DrainOwn(i)
+	}
+	s.fireIfStep(at, "RoundStepPropose")
+	// V and C exchange prevotes among themselves (Z's prevote is the straggler); Z hears everybody
+	s.relayVotes(notZ, notZ, kproto.PrevoteType, r)
+	s.relayVotes([]int{Z}, at, kproto.PrevoteType, r)
+	s.fireIfStep(at, "RoundStepPrevoteWait")
+	s.relayVotes(at, at, kproto.PrecommitType, r)
+	s.fireIfStep(at, "RoundStepPrecommitWait")
+	for _, i := range at {
+		cs := s.Nodes[i].CS
+		if cs.Height != h || cs.Round != r+1 || cs.LockedBlock != nil {
+			s.tracef("stalepolka: round %d did not end undecided and unlocked (%s)", r, s.Describe(at))
+			return
+		}
+	}
+	// round r+1: the proposal reaches everybody but Z
+	for _, i := range at {
+		s.DrainOwn(i)
+	}
+	s.relayKind("proposal", notZ, at)
+	s.relayKind("proposal", notZ, at) // parts follow once the header is known
+	s.fireIfStep(at, "RoundStepPropose")
+	s.relayVotes(notZ, notZ, kproto.PrevoteType, r+1)
+	s.relayVotes([]int{Z}, V, kproto.PrevoteType, r+1)
+	s.fireIfStep(at, "RoundStepPrevoteWait")
+	locked := 0
+	for _, i := range V {
+		if s.Nodes[i].CS.LockedBlock != nil && s.Nodes[i].CS.LockedRound == r+1 {
+			locked++
+		}
+	}
+	if locked != len(V) {
+		s.tracef("stalepolka: victims did not lock in round %d (%s)", r+1, s.Describe(at))
+		return
+	}
+	// only C sees every precommit and decides; V see each other's and Z's
+	s.relayVotes([]int{C}, at, kproto.PrecommitType, r+1)
+	s.relayVotes(V, append([]int{Z}, V...), kproto.PrecommitType, r+1)
+	s.relayVotes([]int{Z}, V, kproto.PrecommitType, r+1)
+	s.fireIfStep(append([]int{Z}, V...), "RoundStepPrecommitWait")
+	// the straggler: Z's prevote of round r finally reaches V
+	s.tracef(" straggler prevote of round %d reaches %v (locked at %d)", r, V, r+1)
+	s.relayVotes(V, []int{Z}, kproto.PrevoteType, r)
+	// V and Z run on without C for a few rounds
+	grp := append([]int{Z}, V...)
+	for k := 0; k < 4; k++ {
+		s.GossipToFixpoint(grp)
+		alive := false
+		for _, i := range grp {
+			if s.Nodes[i].CS.Height == h {
+				alive = true
+				s.FireTimeout(i)
+			}
+		}
+		s.GossipToFixpoint(grp)
+		if !alive {
+			break
+		}
+	}
+	s.Stat["stale-polka-schedule"]++
+	s.tracef("stalepolka end: %s", s.Describe(at))
 }
